@@ -656,7 +656,7 @@ class Quaternion(np.ndarray):
     def __array_finalize__(self, obj):
         if obj is None:
             return
-        self.A = getattr(obj, 'A', np.array([1.0, 0.0, 0.0, 0.0]))
+        self.A = self.view(np.ndarray)      # The object's own values: -q, q/2 or a modified copy must not keep describing q
         self.scalar_vector = getattr(obj, 'scalar_vector', True)
 
     @property
